@@ -40,7 +40,7 @@ impl<'a> GExec<'a> {
         // operator authorisation
         let m = self.gws[g].m.clone();
         let who: Option<usize> = match auth {
-            AuthVar::Right | AuthVar::RightOtherArgs | AuthVar::RootOnly => Some(m.operator),
+            AuthVar::Right | AuthVar::Everyone | AuthVar::RightOtherArgs | AuthVar::RootOnly => Some(m.operator),
             AuthVar::Former => Some(m.former_operator.unwrap_or(P_STRANGER)),
             AuthVar::OtherRole | AuthVar::Owner => Some(m.owner),
             AuthVar::Counterparty => Some(6),
@@ -380,7 +380,7 @@ impl<'a> GExec<'a> {
         let func: &'static str = if owner_role { "transfer_ownership" } else { "transfer_operatorship" };
         let args: SVec<Val> = (to_addr.clone(),).into_val(&env);
         let who: Option<usize> = match auth {
-            AuthVar::Right | AuthVar::RightOtherArgs | AuthVar::RootOnly => Some(holder),
+            AuthVar::Right | AuthVar::Everyone | AuthVar::RightOtherArgs | AuthVar::RootOnly => Some(holder),
             AuthVar::Former => Some(former.unwrap_or(P_STRANGER)),
             AuthVar::OtherRole | AuthVar::Owner => Some(other),
             AuthVar::Counterparty => Some(to_i),
@@ -489,7 +489,7 @@ impl<'a> GExec<'a> {
         )
             .into_val(&env);
         let who: Option<usize> = match auth {
-            AuthVar::Right | AuthVar::RightOtherArgs | AuthVar::RootOnly => Some(s_i),
+            AuthVar::Right | AuthVar::Everyone | AuthVar::RightOtherArgs | AuthVar::RootOnly => Some(s_i),
             AuthVar::Owner | AuthVar::OtherRole => Some(self.gws[g].m.owner),
             AuthVar::Counterparty | AuthVar::Former => Some(4 + ((sender as usize + 1) % 4)),
             AuthVar::Stranger => Some(P_STRANGER),
@@ -601,7 +601,7 @@ impl<'a> GExec<'a> {
             .into_val(&env);
         let xfer_args: SVec<Val> = (u_addr.clone(), self.gas.clone(), gas as i128).into_val(&env);
         let who: Option<usize> = match auth {
-            AuthVar::Right | AuthVar::RootOnly | AuthVar::RightOtherArgs => Some(u_i),
+            AuthVar::Right | AuthVar::Everyone | AuthVar::RootOnly | AuthVar::RightOtherArgs => Some(u_i),
             AuthVar::Owner | AuthVar::OtherRole => Some(self.gws[g].m.owner),
             AuthVar::Counterparty | AuthVar::Former => Some(4 + ((user as usize + 1) % 4)),
             AuthVar::Stranger => Some(P_STRANGER),
